@@ -149,6 +149,10 @@ func ParseStreamCallback(reader io.Reader, c Config, callback ParseCallback) err
 			node.Elements.Add(title, fQty)
 		}
 	}
+	if err = lineScanner.Err(); err != nil {
+		// the input could not be read completely (read error or a line longer than the scanner buffer)
+		return NewErrorIO(err, "")
+	}
 	// push last node
 	if node != nil {
 		_, err = callback(node, nil)
